@@ -503,7 +503,8 @@ pub fn replay_trace(sys: &UndoSys, tr: &[Act], verbose: bool) -> Result<(), Stri
             println!("    {}", s.obs.canon());
         }
     }
-    Ok(())
+    // the state oracle (repeated undo down to the last sync) of the final state
+    sys.check(&s, tr).map(|_| ())
 }
 
 pub fn replay(case: &serde_json::Value) -> Result<(), String> {
